@@ -81,37 +81,41 @@ class Powers:
         return Fraction(self.zsum(es), 1 << (self.kw + self.kx * sum(es)))
 
 
-def audit(d, nodes_int, kx, kw, n, rng=None, budget=400000):
-    """exactness audit of a dumped rule for advertised degree n.
+def deg_ok(shape, n, es):
+    k = 0
+    for d in shape:
+        if sum(es[k:k + d]) > n:
+            return False
+        k += d
+    return True
 
-    returns dict: ok, worst (defect as Fraction), worst_mono, outside (first node outside the cell),
-    evaluated (number of monomials), exhaustive (bool), zsums (list of (es, int)) for a few monomials"""
+
+def evaluate(d, nodes_int, kx, kw, n, rng=None, budget=400000):
+    """defects of the rule on the monomials of degree <= n (all of them when #monomials * #nodes <= budget,
+    else extreme ones of every degree plus a random sample).
+    returns (list of (es, zsum, defect Fraction), exhaustive, first node outside the cell or None)"""
     shape = SHAPE[d.cell]
-    res = {'ok': True, 'worst': Fraction(0), 'worst_mono': None, 'outside': None, 'evaluated': 0,
-           'exhaustive': True, 'zsums': [], 'first_bad': None}
+    outside = None
     for pt, w in d.nodes:
         if not in_cell(shape, pt):
-            res['ok'] = False
-            res['outside'] = [float(x) for x in pt]
+            outside = [float(x) for x in pt]
             break
     nq = len(nodes_int)
-    total = n_monos(shape, n)
-    if total * nq <= budget:
+    dim = sum(shape)
+    exhaustive = n_monos(shape, n) * nq <= budget
+    if exhaustive:
         ms = monos(shape, n)
     else:
-        res['exhaustive'] = False
-        dim = sum(shape)
         ms = [tuple([0] * dim)]
-        # extreme monomials of every factor plus a random sample
         k = 0
         for dd in shape:
             for i in range(dd):
-                for e in sorted({1, n - 1, n} - {0, -1}):
+                for e in range(1, n + 1):
                     es = [0] * dim
                     es[k + i] = e
                     ms.append(tuple(es))
             k += dd
-        want = max(8, budget // max(nq, 1))
+        want = max(len(ms) + 8, budget // max(nq, 1))
         tries = 0
         while len(ms) < want and tries < 20 * want and rng is not None:
             tries += 1
@@ -119,22 +123,38 @@ def audit(d, nodes_int, kx, kw, n, rng=None, budget=400000):
             for dd in shape:
                 tot = rng.randint(0, n)
                 cuts = sorted(rng.randint(0, tot) for _ in range(dd - 1))
-                blk = [b - a for a, b in zip([0] + cuts, cuts + [tot])]
-                es += blk
+                es += [b - a for a, b in zip([0] + cuts, cuts + [tot])]
             ms.append(tuple(es))
         ms = list(dict.fromkeys(ms))
     P = Powers(nodes_int, kx, kw, n)
-    tol = Fraction(1, 1 << TOL_BITS)
+    out = []
     for es in ms:
         z = P.zsum(es)
-        val = Fraction(z, 1 << (kw + kx * sum(es)))
-        df = abs(val - exact(shape, es))
+        out.append((es, z, abs(Fraction(z, 1 << (kw + kx * sum(es))) - exact(shape, es))))
+    return out, exhaustive, outside
+
+
+def verdict(cell, n, evals, exhaustive, outside):
+    """the audit of one order from the evaluated monomials of its rule"""
+    shape = SHAPE[cell]
+    tol = Fraction(1, 1 << TOL_BITS)
+    res = {'ok': outside is None, 'worst': Fraction(0), 'worst_mono': None, 'outside': outside, 'evaluated': 0,
+           'exhaustive': exhaustive, 'zsums': [], 'first_bad': None}
+    for es, z, df in evals:
+        if not deg_ok(shape, n, es):
+            continue
         res['evaluated'] += 1
-        if len(res['zsums']) < 3 or (es == ms[-1]):
-            res['zsums'].append((list(es), z))
+        if len(res['zsums']) < 4 or sum(es) == n:
+            if len(res['zsums']) < 8:
+                res['zsums'].append((list(es), z))
         if df > res['worst']:
             res['worst'], res['worst_mono'] = df, list(es)
         if df > tol and res['first_bad'] is None:
             res['first_bad'] = list(es)
             res['ok'] = False
     return res
+
+
+def audit(d, nodes_int, kx, kw, n, rng=None, budget=400000):
+    evals, exhaustive, outside = evaluate(d, nodes_int, kx, kw, n, rng, budget)
+    return verdict(d.cell, n, evals, exhaustive, outside)
